@@ -12,7 +12,9 @@ RULE = ("fault enumeration: for each base scenario (pair, chain, diamond, shifte
         "local and in-memory remote) a fault-free run counts the steps of every simulator; then one malformed reply "
         "is injected at every (simulator, step index): next step in {float, numeric string, list, t, t-1, 0, "
         "negative, None for time-based}, output time in {t-1, 0 when t>0, negative}, under several schedules; plus "
-        "Hypothesis-drawn (scenario, schedule, fault) triples. Oracle: run() raises an error whose text contains "
+        "Hypothesis-drawn (scenario, schedule, fault) triples; plus real-time runs (virtual clock) in which the "
+        "offender has announced an event for a later time (set_event, in the faulty step or the one before) that is "
+        "still pending when the malformed reply arrives. Oracle: run() raises an error whose text contains "
         "the simulator id, the offender gets no further step, no step below a simulator's previous step, loop "
         "closed. non-trivial = fault at step index >= 1 or in a simulator with a consumer; distinct = distinct "
         "(scenario, schedule, fault) hashes")
@@ -115,6 +117,24 @@ def base_scenarios():
     return out
 
 
+def rt_scenarios():
+    """small scenarios run in real-time mode on the virtual clock (set_event is only allowed there)"""
+    from mvf.gen import _sim, _c
+    run = {"lazy_stepping": True, "rt_factor": 0.5}
+    out = []
+    out.append(("rt_pair", {"tree": ["A", "B"], "sims": [_sim("A", "time-based", steps=[3]), _sim("B", "time-based", steps=[2])],
+                            "conns": [_c("A", "po", "B", "mi")], "initial_events": {}, "until": 7,
+                            "world": {"cache": True}, "run": dict(run)}))
+    out.append(("rt_hybrid", {"tree": ["A", "B"], "sims": [_sim("A", "hybrid", steps=[3], emit=[1]),
+                                                          _sim("B", "event-based", emit=[0])],
+                              "conns": [_c("A", "eo", "B", "ti")], "initial_events": {}, "until": 7,
+                              "world": {"cache": True}, "run": dict(run)}))
+    out.append(("rt_single_mem", {"tree": ["A"], "sims": [dict(_sim("A", "time-based", steps=[2]), transport="mem")],
+                                  "conns": [], "initial_events": {}, "until": 7,
+                                  "world": {"cache": True}, "run": dict(run)}))
+    return out
+
+
 def shards(tier, seed):
     return schedprops.std_shards(PROP, tier, seed)
 
@@ -143,6 +163,34 @@ def shard(prop, tier, seed, shard, nshards):
                         for f in check_case(case, acc):
                             if len(acc.failures) < 20:
                                 acc.failures.append(f)
+    # real-time mode: the same validation with an event the offender announced itself (set_event) still pending,
+    # announced in the faulty step or in an earlier one
+    for name, scn in rt_scenarios():
+        base = harness.run_case({"scenario": scn, "schedule": {"timed": True}})
+        times = {}
+        for e in base.trace:
+            if e[0] == "step_begin":
+                times.setdefault(e[1], []).append(e[2])
+        for sm in scn["sims"]:
+            sid = sm["sid"]
+            for k, t in enumerate(times.get(sid, [])):
+                bads = [("next", b) for b in (NEXT_BAD[0], NEXT_BAD[4], NEXT_BAD[5])] + [("time", TIME_BAD[0])]
+                if sm["type"] == "time-based":
+                    bads.append(("next", ["none"]))
+                for where, bad in bads:
+                    for j in range(max(0, k - 1), k + 1):
+                        for dt in (1, 2):
+                            i += 1
+                            if i % nshards != shard or acc.out_of_time() or t + dt >= scn["until"]:
+                                continue
+                            case = inject({"scenario": scn, "schedule": {"timed": True}}, sid, k, where, bad)
+                            for s2 in case["scenario"]["sims"]:
+                                if s2["sid"] == sid:
+                                    s2["beh"].setdefault("async", {}).setdefault(str(j), []).append(["event", t + dt])
+                            case["rt_pending_event"] = [j, t + dt]
+                            for f in check_case(case, acc):
+                                if len(acc.failures) < 20:
+                                    acc.failures.append(f)
     from hypothesis import strategies as st
 
     @st.composite
